@@ -353,7 +353,10 @@ fn intersect_pair(a: usize, b: usize, program: &mut Program) -> usize {
             ) else {
                 return never;
             };
-            if i1.name != i2.name || i1.fields.len() != i2.fields.len() {
+            if i1.name != i2.name
+                || i1.fields.len() != i2.fields.len()
+                || i1.fields.iter().zip(i2.fields.iter()).any(|((l1, _), (l2, _))| l1 != l2)
+            {
                 return never;
             }
             let mut fields = Vec::with_capacity(i1.fields.len());
@@ -463,7 +466,11 @@ fn subtract_one(a: usize, b: usize, program: &mut Program) -> Vec<usize> {
             ) else {
                 return vec![a];
             };
-            if i1.name != i2.name || i1.fields.len() != i2.fields.len() {
+            // Tuples of different name, arity or field labels are disjoint.
+            if i1.name != i2.name
+                || i1.fields.len() != i2.fields.len()
+                || i1.fields.iter().zip(i2.fields.iter()).any(|((l1, _), (l2, _))| l1 != l2)
+            {
                 return vec![a];
             }
             // `[A] ∖ [b]` = union over i of `[A₀, …, Aᵢ∖bᵢ, …, Aₙ]`.
